@@ -50,6 +50,8 @@ def _load_variants():
             if meta.get("pending") and not os.environ.get("VERIF_PENDING"):
                 continue  # recorded, but the checks are known not to be silent on it yet (VERIF_PENDING=1 includes them)
             out.append({"id": f"benign-{d.name}", "props": meta.get("props") or ALL_PROPS, "expect": "silent", "edits": [], "patchfile": str(pf), "what": meta.get("summary", "")})
+    # the whole package re-printed from its syntax trees (every comment gone, every line and column changed): no check may depend on layout
+    out.append({"id": "benign-reformatted-by-unparse", "props": ALL_PROPS, "expect": "silent", "edits": [], "transform": "unparse", "what": "every module replaced by ast.unparse of its tree"})
     return out
 
 
@@ -92,6 +94,11 @@ def eval_variant(v: dict, props=None) -> dict:
                 why = "patch does not apply to the current tree: " + (pr.stdout + pr.stderr).strip()[:120]
         if not why and v.get("post_edits"):
             why = _apply(tmp, v["post_edits"])
+        if not why and v.get("transform") == "unparse":
+            import ast as _ast
+
+            for pyf in (tmp / "src" / "pyrtcm").glob("*.py"):
+                pyf.write_text(_ast.unparse(_ast.parse(pyf.read_text(encoding="utf-8"))) + "\n", encoding="utf-8")
         if why:
             return {"id": v["id"], "status": "skipped", "detail": why}
         try:
@@ -239,5 +246,12 @@ def main() -> int:
     if cc["mismatches"]:
         rc = 2
         print(str(cc["first"][1])[:400])
+    from .threadcheck import check_rotate as _rotate_check
+
+    rc_ = _rotate_check(1000, 20260103)
+    print(f"{'ok ' if not rc_['mismatches'] else 'BAD'} primed-loop rotation differential: {rc_['programs']} programs, {rc_['rewritten']} rewritten, {rc_['mismatches']} mismatch(es)")
+    if rc_["mismatches"]:
+        rc = 2
+        print(str(rc_["first"][1])[:400])
     print(f"{len(variants)} variants in {time.time() - t0:.1f}s")
     return rc
